@@ -499,6 +499,8 @@ def r8_inventory(ctx, reach):
 
 
 def run(ctx):
+    from . import effects
+    effects.check_property(ctx, "C20")    # R20.E: no operation on shared protocol state outside the reviewed table
     r1_dispatch(ctx)
     C02.r4_inert_branches(ctx)
     reach = input_reachable(ctx)
